@@ -24,6 +24,16 @@ pub trait Expression: ToAny + Debug {
     fn get_copy(&self) -> Box<dyn Expression>;
 }
 
+/// Returns a handle to the member of a container. The elements of a read-only value
+/// (e.g. the fields of "_event") are read-only, too.
+fn inherit_readonly(container: &DataArc, member: &DataArc) -> DataArc {
+    let mut m = member.clone();
+    if container.is_readonly() {
+        m.set_readonly(true);
+    }
+    m
+}
+
 pub fn get_expression_as<T: 'static>(ec: &dyn Expression) -> Option<&T> {
     let va = ec.as_any();
     va.downcast_ref::<T>()
@@ -271,7 +281,7 @@ impl Expression for ExpressionIndex {
                     Data::Map(m) => match data_to_string(&index_data) {
                         Ok(key) => match m.get(&key) {
                             None => {
-                                if allow_undefined {
+                                if allow_undefined && !left_value.is_readonly() {
                                     let data_arc = create_data_arc(Data::None());
                                     m.insert(key, data_arc.clone());
                                     Ok(data_arc)
@@ -279,14 +289,14 @@ impl Expression for ExpressionIndex {
                                     Err(format!("Index '{}' not found", key))
                                 }
                             }
-                            Some(member) => Ok(member.clone()),
+                            Some(member) => Ok(inherit_readonly(&left_value, member)),
                         },
                         Err(err) => Err(err),
                     },
                     Data::Array(m) => match numeric_to_integer(&index_data) {
                         Some(index) => match m.get(index as usize) {
                             None => Err(format!("Index not found: {} (len={})", index, m.len())),
-                            Some(value) => Ok(value.clone()),
+                            Some(value) => Ok(inherit_readonly(&left_value, value)),
                         },
                         None => Err(format!("Illegal index type '{}'", index_data)),
                     },
@@ -338,14 +348,14 @@ impl Expression for ExpressionMemberAccess {
                     | Data::None() => Err(format!("Value '{}' has no members", data)),
                     Data::Map(m) => match m.get(&self.member_name) {
                         None => {
-                            if allow_undefined {
+                            if allow_undefined && !val.is_readonly() {
                                 m.insert(self.member_name.clone(), create_data_arc(Data::None()));
                                 Ok(m.get(&self.member_name).unwrap().clone())
                             } else {
                                 Err(format!("Member {} not found", self.member_name))
                             }
                         }
-                        Some(member) => Ok(member.clone()),
+                        Some(member) => Ok(inherit_readonly(&val, member)),
                     },
                     Data::Error(err) => Err(err.clone()),
                 }
@@ -453,6 +463,9 @@ impl Expression for ExpressionAssignUndefined {
             match left_result {
                 Err(err) => Err(err),
                 Ok(left_value) => {
+                    if left_value.is_readonly() {
+                        return Err(format!("Can't set read-only {left_value}"));
+                    }
                     // Copy the value: source and target may be the same object ("a ?= a").
                     let right_data = right_result.lock().unwrap().clone();
                     *left_value.lock().unwrap().deref_mut() = right_data;
